@@ -14,6 +14,7 @@ Secondary lazy collection arguments: the same three measurements for `<list>.op(
 join (second collection), zip, zipLongest, concat, +, insertMany, replaceMany, defaultIfEmpty, selectMany (lazy selector
 result): the instrumented source feeds the SECOND argument, the receiver is a constant (possibly empty / an iterator)."""
 import itertools
+import os
 import zlib
 import json
 import signal
@@ -810,6 +811,14 @@ def shrink(case, drv, kind):
     return case
 
 
+def answered(drv, cases, chunk):
+    """(case, model reply) pairs, the model asked chunk by chunk"""
+    for i in range(0, len(cases), chunk):
+        part = cases[i:i + chunk]
+        for pair in zip(part, ask(drv, part)):
+            yield pair
+
+
 def run(env, res):
     drv = env['driver']
     tier = env['tier']
@@ -828,10 +837,20 @@ def run(env, res):
         focuses = STREAM_OPS + TERMINAL_OPS
         cases = [gen_case(rng, f) for f in focuses for _ in range(per)]
         cases += [gen_sec_case(rng, f) for f in SEC_KINDS for _ in range(per)]
+        if tier != 'quick':
+            # thorough is sized by wall clock (every real run sits under a watchdog): 150 cases of every focus first, the
+            # rest round-robin over the focuses until the budget is used up (said in the evidence)
+            n_f = len(focuses) + len(SEC_KINDS)
+            blocks = [cases[i * per:(i + 1) * per] for i in range(n_f)]
+            cases = [c for b in blocks for c in b[:150]] + [b[j] for j in range(150, per) for b in blocks]
     t0 = time.time()
-    replies = ask(drv, cases)
+    budget = float(os.environ.get('VERIF_THOROUGH_S') or 480)
     hist = dict(second_arg={}, skipped=0, exact_pulls=0, exact_apps=0, run=0, real_err=0, by_focus={}, k={}, stages={}, slack_pulls={}, slack_apps={})
-    for case, mr in zip(cases, replies):
+    quick_part = len(cases) if (tier == 'quick' or env['replay']) else 150 * (len(STREAM_OPS + TERMINAL_OPS) + len(SEC_KINDS))
+    for case, mr in answered(drv, cases, 950):
+        if hist['run'] + hist['skipped'] >= quick_part and time.time() - t0 > budget:
+            hist['stopped_by_wall_clock_budget_s'] = budget
+            break
         f, info = evaluate_case(case, mr)
         text = case_text(case)
         ran = not info.get('skipped')
@@ -871,6 +890,7 @@ def run(env, res):
             res.fail(g[0], key[:60], g[1], case_to_json(small))
             if len(res.failures) >= 8 or sum('watchdog' in x.what for x in res.failures) >= 2:
                 break
+    hist['cases_generated'] = len(cases)
     hist['engine_family_members'] = {'%s:%s' % (how, json.dumps(ENGINE_DELTAS[i], sort_keys=True) if ENGINE_DELTAS[i] else 'base options'): n
                                      for (i, how), n in sorted(MEMBER_HIST.items())}
     res.extra['histogram'] = hist
